@@ -29,8 +29,7 @@ theorem applyPkg_eval (k : PKind) (nr : String × Ref) (x : Store) :
     · simp [hget, hcr, okOr]
     · intro y hy
       simp [statesOk, hget, hcr, okOr] at hy
-      rcases hy with hy | hy | hy
-      · exact Or.inl hy
+      rcases hy with hy | hy
       · exact Or.inl hy
       · exact Or.inr hy
   | some q =>
@@ -42,8 +41,7 @@ theorem applyPkg_eval (k : PKind) (nr : String × Ref) (x : Store) :
     · simp [hget, hp, okOr]
     · intro y hy
       simp [statesOk, hget, hp, okOr] at hy
-      rcases hy with hy | hy | hy
-      · exact Or.inl hy
+      rcases hy with hy | hy
       · exact Or.inl hy
       · exact Or.inr hy
 
@@ -93,9 +91,9 @@ theorem applyOne_fix (k : PKind) (nr : String × Ref) (x : Store) : PkgFix k nr 
       · subst hq; exact ⟨rfl, rfl⟩
   | some q0 =>
     simp only
-    refine ⟨⟨_, ?_⟩, ?_⟩
-    · simp only [findPkg] at hf ⊢
-      exact find_map_some _ _ _ (fun y => pkgKey_patch k nr.1 nr.2 y _ _) _ hf
+    have hf' := hf
+    simp only [findPkg] at hf'
+    refine ⟨⟨_, by simp only [findPkg]; exact find_map_some _ _ _ (fun y => pkgKey_patch k nr.1 nr.2 y _ _) _ hf'⟩, ?_⟩
     · intro q hq hk
       simp only [List.mem_map] at hq
       obtain ⟨q1, _, e⟩ := hq
@@ -123,16 +121,16 @@ theorem applyOne_other (k : PKind) (nr : String × Ref) (k' : PKind) (nr' : Stri
         exact absurd (by rw [hk.1, hk.2]) hne
   | some q0 =>
     simp only
-    refine ⟨⟨_, ?_⟩, ?_⟩
-    · simp only [findPkg] at hq ⊢
-      exact find_map_some _ _ _ (fun y => pkgKey_patch k nr.1 nr.2 y _ _) _ hq
+    have hq2 := hq
+    simp only [findPkg] at hq2
+    refine ⟨⟨_, by simp only [findPkg]; exact find_map_some _ _ _ (fun y => pkgKey_patch k nr.1 nr.2 y _ _) _ hq2⟩, ?_⟩
     · intro q' hq' hk
       simp only [List.mem_map] at hq'
       obtain ⟨q1, hq1, e⟩ := hq'
       by_cases h1 : q1.kind = k ∧ q1.name = nr.1
       · simp [h1] at e; subst e
         simp only at hk
-        exact absurd (by rw [← hk.1, ← hk.2, h1.1, h1.2]) hne
+        exact absurd (by rw [← hk.1, ← hk.2]) hne
       · simp [h1] at e; subst e; exact hall q1 hq1 hk
 
 /-- every package is from the start state or carries an applied key with the applied reference -/
@@ -198,5 +196,260 @@ theorem applyAll_props (s₀ : Store) (keys : List (PKind × String × Ref)) (k 
     · simp only [applyAll]
       exact ⟨i4.1.trans f1, i4.2.1.trans f2, i4.2.2.1.trans f3, i4.2.2.2.1.trans f4, i4.2.2.2.2.1.trans f5,
         i4.2.2.2.2.2.1.trans f6, i4.2.2.2.2.2.2.trans f7⟩
+
+
+/-! ### the step: fixpoint -/
+
+def InstallDone (p c f : List Img) (s : Store) : Prop :=
+  ∃ ps cs fs, buildAll resolve (buildIndex (listing s .provider)) p = some ps ∧
+    buildAll resolve (buildIndex (listing s .configuration)) c = some cs ∧
+    buildAll resolve (buildIndex (listing s .function)) f = some fs ∧
+    (∀ nr ∈ ps, PkgFix .provider nr s) ∧ (∀ nr ∈ cs, PkgFix .configuration nr s) ∧ (∀ nr ∈ fs, PkgFix .function nr s)
+
+theorem pkg_eta (p : Pkg) (raw : String) (ref : Option Ref) (h1 : p.raw = raw) (h2 : p.ref = ref) :
+    { p with raw := raw, ref := ref } = p := by
+  cases p; simp_all
+
+theorem applyOne_self (k : PKind) (nr : String × Ref) (s : Store) (h : PkgFix k nr s) : applyOne k nr s = s := by
+  obtain ⟨⟨q, hq⟩, hall⟩ := h
+  unfold applyOne
+  rw [hq]
+  simp only
+  have hmap : (s.pkgs.map fun p => if p.kind = k ∧ p.name = nr.1 then { p with raw := nr.2.str, ref := some nr.2 } else p) = s.pkgs :=
+    map_eq_self _ _ (fun x hx => by
+      by_cases e : x.kind = k ∧ x.name = nr.1
+      · rw [if_pos e]; exact pkg_eta x _ _ (hall x hx e).1 (hall x hx e).2
+      · rw [if_neg e])
+  rw [hmap]
+
+theorem applyLoop_fix (k : PKind) (l : Reqs) (s : Store) (h : ∀ nr ∈ l, PkgFix k nr s) :
+    evalOk (forEach (applyPkg k) l) s = (s, .ok) ∧ ∀ y ∈ statesOk (forEach (applyPkg k) l) s, y = s := by
+  induction l with
+  | nil => simp [forEach, statesOk]
+  | cons nr rest ih =>
+    obtain ⟨i1, i2⟩ := ih (fun n hn => h n (by simp [hn]))
+    obtain ⟨a1, a2⟩ := applyPkg_eval k nr s
+    rw [applyOne_self k nr s (h nr (by simp))] at a1 a2
+    unfold forEach
+    constructor
+    · rw [evalOk_bind, a1]; exact i1
+    · intro y hy
+      rw [statesOk_bind] at hy
+      rcases hy with hy | hy
+      · rcases a2 y hy with e | e <;> exact e
+      · rw [a1] at hy; exact i2 y hy
+
+theorem listOf_eval (k : PKind) (cont : List Pkg → P Res) (s : Store) :
+    evalOk (listOf k cont) s = evalOk (cont (listing s k)) s ∧
+    ∀ y, y ∈ statesOk (listOf k cont) s ↔ y = s ∨ y ∈ statesOk (cont (listing s k)) s := by
+  unfold listOf
+  constructor
+  · simp only [evalOk_call, exec_listPkgs]
+  · intro y
+    simp only [statesOk, exec_listPkgs, List.mem_cons]
+
+theorem installBody_eval (p c f : List Img) (pl cl fl : List Pkg) (ps cs fs : Reqs)
+    (hp : buildAll resolve (buildIndex pl) p = some ps) (hc : buildAll resolve (buildIndex cl) c = some cs)
+    (hf : buildAll resolve (buildIndex fl) f = some fs) :
+    installBody resolve p c f pl cl fl = installApply ps cs fs := by
+  unfold installBody
+  simp only [hp, hc, hf]
+
+theorem install_fix (p c f : List Img) (s : Store) (h : InstallDone p c f s) :
+    evalOk (installStep p c f) s = (s, .ok) ∧ ∀ y ∈ statesOk (installStep p c f) s, y = s := by
+  obtain ⟨ps, cs, fs, hp, hc, hf, fp, fc, ff⟩ := h
+  obtain ⟨p1, p2⟩ := applyLoop_fix .provider ps s fp
+  obtain ⟨c1, c2⟩ := applyLoop_fix .configuration cs s fc
+  obtain ⟨f1, f2⟩ := applyLoop_fix .function fs s ff
+  unfold installStep installWith
+  constructor
+  · rw [(listOf_eval _ _ s).1, (listOf_eval _ _ s).1, (listOf_eval _ _ s).1, installBody_eval p c f _ _ _ ps cs fs hp hc hf]
+    unfold installApply
+    rw [evalOk_bind, p1]
+    simp only
+    rw [evalOk_bind, c1]
+    exact f1
+  · intro y hy
+    rw [(listOf_eval _ _ s).2] at hy
+    rcases hy with hy | hy
+    · exact hy
+    · rw [(listOf_eval _ _ s).2] at hy
+      rcases hy with hy | hy
+      · exact hy
+      · rw [(listOf_eval _ _ s).2] at hy
+        rcases hy with hy | hy
+        · exact hy
+        · rw [installBody_eval p c f _ _ _ ps cs fs hp hc hf] at hy
+          unfold installApply at hy
+          rw [statesOk_bind] at hy
+          rcases hy with hy | hy
+          · exact p2 y hy
+          · rw [p1] at hy
+            simp only at hy
+            rw [statesOk_bind] at hy
+            rcases hy with hy | hy
+            · exact c2 y hy
+            · rw [c1] at hy; exact f2 y hy
+
+/-! ### the step: establishment -/
+
+theorem nodup_map_inj {γ δ : Type} {f : γ → δ} {l : List γ} (h : (l.map f).Nodup) {a b : γ}
+    (ha : a ∈ l) (hb : b ∈ l) (e : f a = f b) : a = b := by
+  induction l with
+  | nil => cases ha
+  | cons x xs ih =>
+    simp only [List.map_cons, List.nodup_cons] at h
+    rcases List.mem_cons.mp ha with ha1 | ha1
+    · rcases List.mem_cons.mp hb with hb1 | hb1
+      · rw [ha1, hb1]
+      · exfalso; apply h.1; rw [← ha1, e]; exact List.mem_map_of_mem hb1
+    · rcases List.mem_cons.mp hb with hb1 | hb1
+      · exfalso; apply h.1; rw [← hb1, ← e]; exact List.mem_map_of_mem ha1
+      · exact ih h.2 ha1 hb1
+
+/-- at most one installed package per source and kind -/
+def SrcUnique (s : Store) : Prop :=
+  ∀ q ∈ s.pkgs, ∀ q' ∈ s.pkgs, q.kind = q'.kind → ∀ src, HasSrc q src → HasSrc q' src → q.name = q'.name
+
+theorem resolve_stable (k : PKind) (l : Reqs) (s t : Store)
+    (hl : ∀ nr ∈ l, nr.1 = resolve (buildIndex (listing s k)) nr.2)
+    (hsrc : (l.map (·.2.src)).Nodup) (huniq : SrcUnique s)
+    (hfix : ∀ nr ∈ l, PkgFix k nr t)
+    (hfrom : ∀ q ∈ t.pkgs, q.kind = k → q ∈ s.pkgs ∨ ∃ nr ∈ l, nr.1 = q.name) :
+    ∀ nr ∈ l, resolve (buildIndex (listing t k)) nr.2 = nr.1 := by
+  intro nr hnr
+  obtain ⟨⟨q0, hq0⟩, hall⟩ := hfix nr hnr
+  have hq0m : q0 ∈ t.pkgs := List.mem_of_find?_eq_some hq0
+  have hq0k : q0.kind = k ∧ q0.name = nr.1 := by simpa [findPkg] using List.find?_some hq0
+  have hq0s : HasSrc q0 nr.2.src := ⟨nr.2, (hall q0 hq0m hq0k).2, rfl⟩
+  obtain ⟨q, hq, hqs, hres⟩ := resolve_hits (listing t k) nr.2 ⟨q0, (mem_listing _ _ _).mpr ⟨hq0m, hq0k.1⟩, hq0s⟩
+  rw [hres]
+  obtain ⟨hqm, hqk⟩ := (mem_listing _ _ _).mp hq
+  rcases hfrom q hqm hqk with hin | ⟨nr', hnr', hname⟩
+  · -- an untouched package of the start state: it is the one the image resolved to
+    obtain ⟨q', hq', hq's, hres'⟩ := resolve_hits (listing s k) nr.2 ⟨q, (mem_listing _ _ _).mpr ⟨hin, hqk⟩, hqs⟩
+    obtain ⟨hq'm, hq'k⟩ := (mem_listing _ _ _).mp hq'
+    rw [huniq q hin q' hq'm (hqk.trans hq'k.symm) nr.2.src hqs hq's, ← hres', ← hl nr hnr]
+  · -- a package written by this run: it carries the reference of the request with its name
+    have href : q.ref = some nr'.2 := ((hfix nr' hnr').2 q hqm ⟨hqk, hname.symm⟩).2
+    obtain ⟨r, hr, hs⟩ := hqs
+    rw [href] at hr; cases hr
+    have : nr' = nr := nodup_map_inj hsrc hnr' hnr hs
+    rw [← hname, this]
+
+theorem buildAll_resolve_eq (m m' : List (String × String)) (imgs : List Img) (l : Reqs)
+    (h : buildAll resolve m imgs = some l) (he : ∀ nr ∈ l, resolve m' nr.2 = nr.1) :
+    buildAll resolve m' imgs = some l := by
+  induction imgs generalizing l with
+  | nil => simpa [buildAll] using h
+  | cons i is ih =>
+    unfold buildAll at h ⊢
+    cases hr : i.ref with
+    | none => simp [hr] at h
+    | some r =>
+      simp only [hr] at h ⊢
+      cases hb : buildAll resolve m is with
+      | none => simp [hb] at h
+      | some l' =>
+        simp only [hb, Option.map_some, Option.some.injEq] at h
+        subst h
+        rw [ih l' hb (fun nr hn => he nr (by simp [hn]))]
+        simp only [Option.map_some, Option.some.injEq, List.cons.injEq, Prod.mk.injEq, and_true]
+        exact he (resolve m r, r) (by simp)
+
+/-- hypotheses of installer idempotence: per kind, the requested images have pairwise distinct
+sources and resolve to pairwise distinct object names, and the cluster does not already hold one
+source twice -/
+structure InstallHyp (p c f : List Img) (s : Store) : Prop where
+  prov : ∀ l, buildAll resolve (buildIndex (listing s .provider)) p = some l → (l.map (·.1)).Nodup ∧ (l.map (·.2.src)).Nodup
+  conf : ∀ l, buildAll resolve (buildIndex (listing s .configuration)) c = some l → (l.map (·.1)).Nodup ∧ (l.map (·.2.src)).Nodup
+  func : ∀ l, buildAll resolve (buildIndex (listing s .function)) f = some l → (l.map (·.1)).Nodup ∧ (l.map (·.2.src)).Nodup
+  uniq : SrcUnique s
+
+theorem keysOf_kind {k : PKind} {l : Reqs} {e : PKind × String × Ref} (h : e ∈ keysOf k l) :
+    e.1 = k ∧ (e.2.1, e.2.2) ∈ l := by
+  simp only [keysOf, List.mem_map] at h
+  obtain ⟨nr, hnr, rfl⟩ := h
+  exact ⟨rfl, hnr⟩
+
+theorem install_establishes (p c f : List Img) (s t : Store) (hyp : InstallHyp p c f s)
+    (h : evalOk (installStep p c f) s = (t, .ok)) :
+    InstallDone p c f t ∧ t.secrets = s.secrets ∧ t.crds = s.crds ∧ t.whcs = s.whcs ∧ t.lock = s.lock ∧ t.sc = s.sc ∧ t.drc = s.drc := by
+  unfold installStep installWith at h
+  rw [(listOf_eval _ _ s).1, (listOf_eval _ _ s).1, (listOf_eval _ _ s).1] at h
+  cases hp : buildAll resolve (buildIndex (listing s .provider)) p with
+  | none => simp [installBody, hp] at h
+  | some ps =>
+  cases hc : buildAll resolve (buildIndex (listing s .configuration)) c with
+  | none => simp [installBody, hp, hc] at h
+  | some cs =>
+  cases hf : buildAll resolve (buildIndex (listing s .function)) f with
+  | none => simp [installBody, hp, hc, hf] at h
+  | some fs =>
+  rw [installBody_eval p c f _ _ _ ps cs fs hp hc hf] at h
+  unfold installApply at h
+  rw [evalOk_bind, applyLoop_eval] at h
+  simp only at h
+  rw [evalOk_bind, applyLoop_eval] at h
+  simp only at h
+  rw [applyLoop_eval] at h
+  simp only [Prod.mk.injEq, and_true] at h
+  let keys := keysOf .provider ps ++ keysOf .configuration cs ++ keysOf .function fs
+  have hsubP : ∀ nr ∈ ps, (PKind.provider, nr.1, nr.2) ∈ keys := fun nr hn => by
+    simp only [keys, keysOf, List.mem_append, List.mem_map]; exact Or.inl (Or.inl ⟨nr, hn, rfl⟩)
+  have hsubC : ∀ nr ∈ cs, (PKind.configuration, nr.1, nr.2) ∈ keys := fun nr hn => by
+    simp only [keys, keysOf, List.mem_append, List.mem_map]; exact Or.inl (Or.inr ⟨nr, hn, rfl⟩)
+  have hsubF : ∀ nr ∈ fs, (PKind.function, nr.1, nr.2) ∈ keys := fun nr hn => by
+    simp only [keys, keysOf, List.mem_append, List.mem_map]; exact Or.inr ⟨nr, hn, rfl⟩
+  have h0 : FromOr s keys s := fun q hq => Or.inl hq
+  obtain ⟨a1, _, a3, a4⟩ := applyAll_props s keys .provider ps (hyp.prov ps hp).1 hsubP s h0
+  obtain ⟨b1, b2, b3, b4⟩ := applyAll_props s keys .configuration cs (hyp.conf cs hc).1 hsubC _ a3
+  obtain ⟨c1, c2, c3, c4⟩ := applyAll_props s keys .function fs (hyp.func fs hf).1 hsubF _ b3
+  rw [h] at c1 c2 c3 c4
+  -- all three lists are fixed in t
+  have fixP : ∀ nr ∈ ps, PkgFix .provider nr t := fun nr hn =>
+    c2 _ nr (fun n _ => by simp) (b2 _ nr (fun n _ => by simp) (a1 nr hn))
+  have fixC : ∀ nr ∈ cs, PkgFix .configuration nr t := fun nr hn => c2 _ nr (fun n _ => by simp) (b1 nr hn)
+  have fixF : ∀ nr ∈ fs, PkgFix .function nr t := c1
+  -- packages of a kind in t: from s, or named like a request of that kind
+  have from_kind : ∀ (k : PKind) (l : Reqs), (∀ e ∈ keys, e.1 = k → (e.2.1, e.2.2) ∈ l) →
+      ∀ q ∈ t.pkgs, q.kind = k → q ∈ s.pkgs ∨ ∃ nr ∈ l, nr.1 = q.name := by
+    intro k l hk q hq hqk
+    rcases c3 q hq with hin | ⟨e, he, e1, e2⟩
+    · exact Or.inl hin
+    · exact Or.inr ⟨(e.2.1, e.2.2), hk e he (e1.trans hqk), e2⟩
+  have keys_kind : ∀ (k : PKind) (l : Reqs), (k = .provider ∧ l = ps) ∨ (k = .configuration ∧ l = cs) ∨ (k = .function ∧ l = fs) →
+      ∀ e ∈ keys, e.1 = k → (e.2.1, e.2.2) ∈ l := by
+    intro k l hkl e he hek
+    simp only [keys, List.mem_append] at he
+    rcases he with (he | he) | he
+    · obtain ⟨e1, e2⟩ := keysOf_kind he
+      rcases hkl with ⟨rfl, rfl⟩ | ⟨rfl, rfl⟩ | ⟨rfl, rfl⟩
+      · exact e2
+      · rw [e1] at hek; cases hek
+      · rw [e1] at hek; cases hek
+    · obtain ⟨e1, e2⟩ := keysOf_kind he
+      rcases hkl with ⟨rfl, rfl⟩ | ⟨rfl, rfl⟩ | ⟨rfl, rfl⟩
+      · rw [e1] at hek; cases hek
+      · exact e2
+      · rw [e1] at hek; cases hek
+    · obtain ⟨e1, e2⟩ := keysOf_kind he
+      rcases hkl with ⟨rfl, rfl⟩ | ⟨rfl, rfl⟩ | ⟨rfl, rfl⟩
+      · rw [e1] at hek; cases hek
+      · rw [e1] at hek; cases hek
+      · exact e2
+  have stP := resolve_stable .provider ps s t (buildAll_mem _ _ _ _ hp) (hyp.prov ps hp).2 hyp.uniq fixP
+    (from_kind _ _ (keys_kind _ _ (Or.inl ⟨rfl, rfl⟩)))
+  have stC := resolve_stable .configuration cs s t (buildAll_mem _ _ _ _ hc) (hyp.conf cs hc).2 hyp.uniq fixC
+    (from_kind _ _ (keys_kind _ _ (Or.inr (Or.inl ⟨rfl, rfl⟩))))
+  have stF := resolve_stable .function fs s t (buildAll_mem _ _ _ _ hf) (hyp.func fs hf).2 hyp.uniq fixF
+    (from_kind _ _ (keys_kind _ _ (Or.inr (Or.inr ⟨rfl, rfl⟩))))
+  refine ⟨⟨ps, cs, fs, buildAll_resolve_eq _ _ p ps hp stP, buildAll_resolve_eq _ _ c cs hc stC,
+    buildAll_resolve_eq _ _ f fs hf stF, fixP, fixC, fixF⟩, ?_⟩
+  obtain ⟨x1, x2, x3, _, x5, x6, x7⟩ := a4
+  obtain ⟨y1, y2, y3, _, y5, y6, y7⟩ := b4
+  obtain ⟨z1, z2, z3, _, z5, z6, z7⟩ := c4
+  exact ⟨(z1.trans y1).trans x1, (z2.trans y2).trans x2, (z3.trans y3).trans x3, (z5.trans y5).trans x5,
+    (z6.trans y6).trans x6, (z7.trans y7).trans x7⟩
 
 end Xp.C20
